@@ -107,7 +107,7 @@ func (a *Act) rootsOf(li *loopInfo, v ssa.Value, visited map[ssa.Value]bool) (ro
 			return nil, false
 		}
 		h, hs := a.u.D.FieldHeap(stT, fa.Field)
-		out := []Term{app("rid", app("sarr", sel(li.modSt.heap(h, hs), base)))}
+		out := []Term{app("rid", app("sarr", hsel(a.u, li.modSt.heap(h, hs), base)))}
 		for b := range li.blocks {
 			for _, ins := range b.Instrs {
 				sto, ok := ins.(*ssa.Store)
@@ -620,7 +620,7 @@ func (a *Act) loopHead(li *loopInfo, st *State, preds []edgeState) *State {
 	}
 	if mods.all {
 		for name, srt := range u.heapSort {
-			h.heaps[name] = u.D.Fresh(name, srt)
+			h.heaps[name] = u.FreshHeap(name, srt)
 		}
 		h.havocGen = u.newHavocGen()
 		u.warn("%s: loop %d contains an opaque call: whole heap havoced at the loop head", a.fn, li.ord)
@@ -633,7 +633,7 @@ func (a *Act) loopHead(li *loopInfo, st *State, preds []edgeState) *State {
 		for _, n := range names {
 			hm := mods.heaps[n]
 			oldH := st.heap(n, hm.sort)
-			nh := u.D.Fresh(n, hm.sort)
+			nh := u.FreshHeap(n, hm.sort)
 			h.setHeap(n, hm.sort, nh)
 			if srt, isTrace := traceSorts[n]; isTrace {
 				// the ghost event trace is append-only: entries below the length at loop entry are unchanged
